@@ -65,9 +65,13 @@ type Config struct {
 	// goroutine does that is descheduled, hit by a GC pause or running on a busy machine.
 	// At most MaxStalls per run; StallPer1024 is the probability at each point in generate
 	// mode. No stall decisions are drawn when StallDurs is empty.
-	StallDurs    []time.Duration
-	StallPer1024 int
-	MaxStalls    int
+	// RecordEmptyPolls: a library select that takes its default arm leaves a KSelDefault
+	// record for every channel it tried to receive from (off by default: an idle polling
+	// loop would fill the history with them).
+	RecordEmptyPolls bool
+	StallDurs        []time.Duration
+	StallPer1024     int
+	MaxStalls        int
 }
 
 // Sim is one simulated execution.
